@@ -1166,7 +1166,8 @@ def crawl_page(fn: str, text: str) -> Dict[str, Any]:
                     if first is None:
                         first = a
                         # the marker of the node (<li>: the class and everything listed below it) or of the row alone
-                        entries.append(("classindex", a.get("href"), _has_private(li) or _has_private(div), ""))
+                        entries.append(("classindex", a.get("href"), _has_private(li) or _has_private(div),
+                                        "n" if _has_private(li) else "r" if _has_private(div) else "0"))
                         links.append(("classindex", a.get("href"), a.get("title") or _text(a)))
                     else:
                         links.append(("classindex-sum", a.get("href"), a.get("title") or _text(a)))
@@ -1482,7 +1483,10 @@ def impl_sections(res: Dict[str, Any]) -> Dict[str, str]:
                 S["detail"].append(page + ">" + enc(ref) + ">" + m)
                 for nm in extra.split("\t"):
                     S["anchors"].append(page + ">" + enc(nm))
-            elif kind in ("sidebar", "sidebar-inherited", "modindex", "classindex", "nameindex", "undoc"):
+            elif kind == "classindex":
+                # where the marker sits: node <li> / row <div> / nowhere
+                S[kind].append(page + ">" + canon_href(ref) + ">" + extra)
+            elif kind in ("sidebar", "sidebar-inherited", "modindex", "nameindex", "undoc"):
                 S[kind].append(page + ">" + canon_href(ref) + ">" + m)
             elif kind == "classanchor":
                 S["classanchors"].append(enc(ref))
